@@ -60,7 +60,7 @@ CHECKS["C02"] = dict(
           "the end of the longest null-free non-decreasing prefix, one code per prefix row, labels strictly increasing, label at a row's code has the row's "
           "key; monotonic_codes_eq_iff; monotonic_null_first - for any comparison functions that agree with the key order on non-null elements. Several keys, "
           "end to end: factorize2d_codes_eq_iff - through the per-key factorizations, the mixed-radix combination and the final factorization two rows get "
-          "the same code exactly when both hold a null in some key, or neither does and they agree in every key column." " Source level (new): the counting sort _build_group_sorted_indexer_numba is translated from core.py on every run and proved correct (LoopBridge/CountingSort, source_counting_sort): with the true group sizes the segment of every group lists exactly the ascending positions of its rows, for any chunking of the codes and any mask. _weight_code_sum likewise (LoopBridge/WeightCode, source_weight_code_sum): the null code iff ANY component code is null, the last key included, else the injective mixed-radix value."),
+          "the same code exactly when both hold a null in some key, or neither does and they agree in every key column." " Source level (new): the counting sort _build_group_sorted_indexer_numba is translated from core.py on every run and proved correct (LoopBridge/CountingSort, source_counting_sort): with the true group sizes the segment of every group lists exactly the ascending positions of its rows, for any chunking of the codes and any mask. _weight_code_sum likewise (LoopBridge/WeightCode, source_weight_code_sum): the null code iff ANY component code is null, the last key included, else the injective mixed-radix value. _monotonic_factorization (the chunk-walking sorted-prefix kernel of numba.py) likewise (LoopBridge/MonoFact, source_monotonic_eq_model): codes, labels and cut-off equal the model on the concatenated chunks, both while loops within their declared bounds."),
     note="pd.factorize / get_indexer / drop_duplicates are assumed (exercised, not proved); the chunk-pointer route is modelled (C03 chunk_route_eq_global) and tied by correspondence.",
     technique="Lean 4 proof (list induction; mixed-radix injectivity; counting-sort correctness of the translated source loop) + relations evaluated on the implementation's output for every route + model correspondence",
     design="§7 C02",
@@ -112,7 +112,7 @@ CHECKS["C10"] = dict(
           "(ema_closed_form); invalid rows repeat the previous output, the output is null until the first valid observation; the time-weighted kernel "
           "satisfies the same closed form with weight decay(t_i - t_j) for ANY multiplicative decay (ema_timed_closed_form), of which 2^(-dt/halflife) "
           "is an instance. Correspondence: ema / ema_grouped / GroupBy.ema against the exact rational model (untimed, rational alpha) and a float "
-          "closed-form oracle (halflife, timed; units s/ms/us/ns, pre-1970, leading nulls, masks, null keys, both layouts)." " Source level (new): _ema_grouped and _ema_grouped_timed are translated from emas.py on every run over exact rationals with NaN (FVal) and proved equal to the models (LoopBridge/Ema; exp / ln 2 uninterpreted); source_ema_closed_form states the weighted-mean closed form about the translated source."),
+          "closed-form oracle (halflife, timed; units s/ms/us/ns, pre-1970, leading nulls, masks, null keys, both layouts)." " Source level (new): _ema_grouped and _ema_grouped_timed are translated from emas.py on every run over exact rationals with NaN (FVal) and proved equal to the models (LoopBridge/Ema; exp / ln 2 uninterpreted); source_ema_closed_form states the weighted-mean closed form about the translated source. The ungrouped _ema_adjusted and _ema_time_weighted are translated and bridged too; source_single_group_eq_ungrouped(_timed): the translated grouped kernel on one group equals the translated ungrouped kernel at every row (two source functions, no hand model)."),
     note="PARTIAL for real-valued halflives: alpha = 1 - 2^(-1/h) and decay = 2^(-dt/h) involve exp/log, which are outside the model; the conversion is checked by comparing the entry points with the float closed form to 1e-9 relative. Mathlib single modules (FieldSimp, Ring, Positivity, Order.Field.Rat, Data.List.Basic) are imported by this proof file only.",
     technique="Lean 4 proof over Rat (state invariant = decayed weighted sums; closed form; abstract multiplicative decay) + source-to-Lean translation of both grouped EMA loops with proved bridge + differential correspondence",
     design="§7 C10",
@@ -136,7 +136,7 @@ CHECKS["C06"] = dict(
           "unchanged by deleting the null-key rows (dropNull_at_rank rank lemma + prefix theorems), and a null-key row receives a marker that depends on no "
           "other row; the obligation all_guards_present ties this to the `key < 0` guards of the current source (extracted by the translator for nine loops). "
           "Metamorphic correspondence: every public operation (reductions, transform, cumulative, rolling, shift/diff, EMA, head/tail/nth, groups, "
-          "group_nearby_members) on data with nulls in any key position vs the same data with those rows deleted; constancy of the marker."),
+          "group_nearby_members) on data with nulls in any key position (single keys also behind a two-chunk arrow key with chunk-local codes) vs the same data with those rows deleted; constancy of the marker."),
     note="Row selection is covered at the model level by its own property (C15) and here by the metamorphic run.",
     technique="Lean 4 proof (corollaries of kernel contract / prefix theorems via a rank lemma; source guard facts) + metamorphic differential testing",
     design="§7 C06",
@@ -185,7 +185,7 @@ CHECKS["C20"] = dict(
           "proved equal to the model), the sum of chunk sums / counts equals the sum / count; max is member and upper bound; bools_to_categorical: bit i of "
           "the row mask is set iff column i is true, so the label names exactly the true columns (for any number of columns); pretty_cut: with sorted edges "
           "searchsorted puts x into (edge[i-1], edge[i]]. Correspondence: nanops.* vs NumPy / exact rational oracles and the Lean reduce_1d model over "
-          "exhaustive null placements x threads 1..8, 2-D axes, nb_dot over ndarray/pandas/polars, all small boolean frames, edge grids incl. values on edges. "
+          "exhaustive null placements x threads 1..8, long float32 / float64 arrays (2e5..4e5 values, 2^24 + 1000 ones) against NumPy on the float64 copy, 2-D axes, nb_dot over ndarray/pandas/polars, all small boolean frames, edge grids incl. values on edges. "
           "Source level (new): _nb_reduce and _get_first_non_null (with the dtype dispatch of its numba overload) are translated from nanops.py / util.py on "
           "every run and proved equal to nbReduce / firstNonNull on all six paths (LoopBridge/NbReduce; source_nb_reduce_skipna, source_nb_reduce_initial)."),
     note="The executable model reduce1d itself is proved end to end: reduce1d_sum_threads, reduce1d_count_threads (any thread count, float view, = NumPy nansum / count of non-null) and reduce1d_extremum_eq_numpy (max / min, any thread count whose array_split has no empty chunk, = nanmax / nanmin, NaN when all null); an EMPTY chunk (n_threads > len) makes the source read arr[0] of an empty array (undefined in the model) - exercised, no wrong result observed; mean/var/std are exact only in rational arithmetic (float results compared to 1e-9).",
@@ -195,9 +195,9 @@ CHECKS["C20"] = dict(
 
 CHECKS["C16"] = dict(
     text=("Lean (exact rational arithmetic): var_identity - the one-pass formula (Sum x^2 - (Sum x)^2/n)/(n-ddof) the library evaluates equals the two-pass sample "
-          "variance Sum(x-mean)^2/(n-ddof) for every list and ddof (via Sum(x-m)^2 = Sum x^2 - 2m Sum x + n m^2); the null rule n <= ddof; apply: the "
+          "variance Sum(x-mean)^2/(n-ddof) for every list and ddof (via Sum(x-m)^2 = Sum x^2 - 2m Sum x + n m^2); group_var_eq_two_pass - GroupBy.var end to end through the three kernel calls is that variance of the group's selected non-null values, and null exactly when the group has no more such values than ddof; apply: the "
           "group-sorted indexer hands each label exactly its rows in ascending row order (counting-sort theorems of C02); density shares add up to 100 "
-          "whenever the total is non-zero. Correspondence: var/std vs two-pass Fraction arithmetic (exact on integers; on floats with offsets up to 1e8 "
+          "whenever the total is non-zero. Correspondence: var/std (ddof 0..3, int32/int64 values up to 4e9) vs two-pass Fraction arithmetic (exact on integers; on floats with offsets up to 1e8 "
           "within 16*n*eps*max|x|^2), median/quantile vs NumPy on each group's selected values, apply with scalar / fixed-length / input-aligned user "
           "functions, agg lists vs individual calls, ratio, subset_ratio, density with/without margins; masks, null keys, unused categories, 1-2 value columns."),
     note="PARTIAL: the floating-point rounding bound of the one-pass variance is only tested against the stated allowance, not proved; NumPy's quantile interpolation is the reference (assumed). Mathlib single modules imported by this proof file only.",
